@@ -1,8 +1,18 @@
 (* The only file with extraction directives.  Compiled by ./check in build/extract. *)
 From Coq Require Import Extraction ExtrOcamlBasic ExtrOcamlZBigInt.
-From TSS Require Import Base.Outcome Base.Bytes Model.Framing Model.Builder.
+From TSS Require Import Base.Outcome Base.Bytes Base.ZMod Base.GoInt Model.Framing Model.Builder Model.Poly Model.Group Model.Curve Model.Paillier Model.Schnorr Model.MtA Model.ZKMod.
 Extraction Language OCaml.
 Extraction "model.ml"
   Framing.sha512_256 Framing.sha512_256i Framing.sha512_256i_tagged Framing.sha512_256i_one
   Framing.commit_with Framing.commit_verify_o Framing.decommit
-  Builder.builder_secrets Builder.parse_secrets.
+  Builder.builder_secrets Builder.parse_secrets
+  ZMod.powmod ZMod.modinv ZMod.go_exp GoInt.go_jacobi
+  Poly.eval_poly Poly.reconstruct Poly.prepare_wi Poly.lagrange0
+  Curve.secp256k1 Curve.ed25519 Curve.on_curve Curve.new_ec_point Curve.pt_add Curve.pt_neg Curve.ec_smul Curve.ec_base_mul Curve.ec_add
+  Curve.unflatten Curve.flatten Curve.eight_inv_eight Curve.pt_on_curve Curve.base
+  Paillier.encrypt Paillier.homo_mult Paillier.homo_add Paillier.decrypt Paillier.key_of_primes Paillier.primes_far_apart
+  Paillier.generate_xs Paillier.pai_prove Paillier.pai_verify
+  Schnorr.zk_prove Schnorr.zk_verify Schnorr.zkv_prove Schnorr.zkv_verify
+  Schnorr.check_indexes Schnorr.vss_create Schnorr.vss_verify Schnorr.vss_reconstruct
+  MtA.alice_prove MtA.alice_verify MtA.bob_prove MtA.bob_verify MtA.alice_init MtA.bob_mid MtA.alice_end
+  ZKMod.fac_prove ZKMod.fac_verify ZKMod.mod_prove ZKMod.mod_verify ZKMod.dln_prove ZKMod.dln_verify.
